@@ -561,7 +561,7 @@ func clip(b []byte) string {
 }
 
 var Check = &kernel.Check{
-	ID: "C13", Gen: gen, Run: run,
+	ID: "C13", Gen: gen, Run: run, ResetPools: true,
 	Simpler: map[string][]int64{"crb": {0, 4096}, "cwb": {0, 4096}, "srb": {0, 4096}, "swb": {0, 4096}, "comp": {0}, "compoffer": {0}, "sub": {0}, "rsegC": {0}, "rsegS": {0}, "wsegC": {0}, "wsegS": {0}},
 }
 
